@@ -97,10 +97,19 @@ pub mod sfmt {
 @PRIM_IMPLS@
 
     // String documents (concrete strings only: bounded, see DESIGN)
+    /// how a String document hands its text to the visitor (formats differ: owned string, borrowed-for-the-
+    /// call str, or - e.g. MessagePack `bin` - UTF-8 bytes, which serde's own String visitor accepts too)
+    pub static mut STR_SHAPE: u8 = 0;
     impl<'de> Deserializer<'de> for Prim<String> {
         type Error = DErr;
         fn deserialize_any<V: Visitor<'de>>(self, visitor: V) -> Result<V::Value, DErr> {
-            if self.ok { visitor.visit_string(self.v) } else { Err(DErr::Inner) }
+            if !self.ok { return Err(DErr::Inner); }
+            match unsafe { STR_SHAPE } {
+                1 => visitor.visit_str(self.v.as_str()),
+                2 => visitor.visit_bytes(self.v.as_bytes()),
+                3 => visitor.visit_byte_buf(self.v.into_bytes()),
+                _ => visitor.visit_string(self.v),
+            }
         }
         serde::forward_to_deserialize_any! {
             bool i8 i16 i32 i64 i128 u8 u16 u32 u64 u128 f32 f64 char str string bytes byte_buf option unit
